@@ -42,7 +42,8 @@ func NewPublishHeader(document *gedcom.Document, extraTab string, selectedTab st
 func (c *PublishHeader) WriteHTMLTo(w io.Writer) (int64, error) {
 	items := []*core.NavItem{}
 
-	if c.options.ShowIndividuals {
+	// Without any index letter there is no individual list page to link to.
+	if c.options.ShowIndividuals && len(c.indexLetters) > 0 {
 		badge := core.NewCountBadge(len(c.document.Individuals()))
 		title := core.NewComponents(core.NewText("Individuals "), badge)
 		item := core.NewNavItem(
